@@ -6,10 +6,10 @@ A seed is kept when its demo exited 0 / non-zero / 0 (pristine / patched / rever
 import glob, json, os, re, subprocess, sys
 
 kind = sys.argv[1]
-sub = "_seed" if kind in ("seeds", "seeds5") else "_twin"
-pref = {"seeds": "s", "seeds5": "u", "twins": "t", "twins3": "v"}[kind]
-suffix = {"seeds5": "-r5", "twins3": "-r3"}.get(kind, "")
-rnd = {"seeds": "4", "seeds5": "5", "twins": "twins-2", "twins3": "twins-3"}[kind]
+sub = "_seed" if kind in ("seeds", "seeds5", "seeds6") else "_twin"
+pref = {"seeds": "s", "seeds5": "u", "seeds6": "w", "twins": "t", "twins3": "v"}[kind]
+suffix = {"seeds5": "-r5", "seeds6": "-r6", "twins3": "-r3"}.get(kind, "")
+rnd = {"seeds": "4", "seeds5": "5", "seeds6": "6", "twins": "twins-2", "twins3": "twins-3"}[kind]
 wts = [f"/tmp/wt_{pref}{x}" for x in sys.argv[2:]] or sorted(glob.glob(f"/tmp/wt_{pref}[0-9][0-9]"))
 
 
@@ -35,7 +35,7 @@ for wt in wts:
             print(f"{pid}-{name}: not evaluated, skipped")
             continue
         notes = open(d + "notes.md").read() if os.path.exists(d + "notes.md") else ""
-        if kind in ("seeds", "seeds5"):
+        if kind in ("seeds", "seeds5", "seeds6"):
             st = d + ".suite.txt"
             if not os.path.exists(st) or "stable_pass 75/75" not in open(st).read():
                 print(f"{pid}-{name}: full suite missing or not 75/75, skipped")
